@@ -1,4 +1,5 @@
 import CotengraVerif.Model.Stats
+import CotengraVerif.Model.AssocList
 
 /-!
   Model of cotengra/slicer.py: `ContractionCosts` (:17-192) and `SliceFinder` (:204-429),
@@ -14,28 +15,6 @@ import CotengraVerif.Model.Stats
   Core Lean only.
 -/
 namespace Cotengra
-
-/- association lists keyed by naturals: a python `dict` -/
-namespace AL
-variable {α : Type}
-
-def get? : List (Nat × α) → Nat → Option α
-  | [], _ => none
-  | (k, v) :: t, x => if k = x then some v else get? t x
-
-def has (d : List (Nat × α)) (x : Nat) : Bool := (get? d x).isSome
-
-/-- `d[x] = v` -/
-def set : List (Nat × α) → Nat → α → List (Nat × α)
-  | [], x, v => [(x, v)]
-  | (k, w) :: t, x, v => if k = x then (k, v) :: t else (k, w) :: set t x v
-
-/-- `del d[x]` / `d.pop(x)` (the caller checks presence) -/
-def del (d : List (Nat × α)) (x : Nat) : List (Nat × α) := d.filter (fun kv => kv.1 != x)
-
-def keys (d : List (Nat × α)) : List Nat := d.map (·.1)
-
-end AL
 
 /-- `defaultdict(lambda: 0)` over python ints -/
 abbrev IDict := List (Nat × Int)
